@@ -13,7 +13,7 @@
 From SF Require Import Base.Prelude Gen.Generated Unsized.Types Unsized.Parse Unsized.Machine Unsized.Ops.
 From SF Require Import Unsized.Proofs.EncodeParse Unsized.Proofs.Mem Unsized.Proofs.Notify Unsized.Proofs.Flat.
 From SF Require Import Unsized.Proofs.Layout Unsized.Proofs.Path Unsized.Proofs.Resize Unsized.Proofs.History Unsized.Proofs.History2.
-From SF Require Import Unsized.Proofs.History3 Unsized.Proofs.Enums.
+From SF Require Import Unsized.Proofs.History3 Unsized.Proofs.Enums Unsized.Proofs.InitKinds Unsized.Proofs.StringSet.
 
 (* the full operation set: no Fault, no Panic, pointer assertions hold *)
 Theorem C03_all_ops_no_fault_in_any_history :
@@ -22,7 +22,7 @@ Theorem C03_all_ops_no_fault_in_any_history :
     exists s' top', mrunX ovf t s top h = Ok (s', top') /\ top_check s' top' = true /\ m_len s' <= m_cap s' /\ m_cap s' = m_cap s.
 Proof.
   intros ovf t h v s top pi0 v' R Hn Ho.
-  destruct (xrun_refines ovf t h v s top pi0 v' R Hn Ho) as (s' & top' & pi' & Hrun & R' & Hc).
+  destruct (History2.xrun_refines ovf t h v s top pi0 v' R Hn Ho) as (s' & top' & pi' & Hrun & R' & Hc).
   exists s', top'. split; [exact Hrun|]. split; [exact (repf_top_check _ _ _ _ _ R')|].
   pose proof (repf_cap _ _ _ _ _ R'). destruct R' as [_ _ _ _ Hl _ _]. split; [lia|exact Hc].
 Qed.
@@ -35,6 +35,18 @@ Theorem C03_no_fault_in_any_full_history :
 Proof.
   intros ovf t h v s top pi0 v' obss R Hn Ho.
   destruct (zrun_refines ovf t h v s top pi0 v' obss R Hn Ho) as (s' & top' & pi' & Hrun & R' & Hc).
+  exists s', top'. split; [exact Hrun|]. split; [exact (repf_top_check _ _ _ _ _ R')|].
+  pose proof (repf_cap _ _ _ _ _ R'). destruct R' as [_ _ _ _ Hl _ _]. split; [lia|exact Hc].
+Qed.
+
+(* ... and with non-default initializers and UnsizedString::set among the operations (C01_run_refines_every_operation) *)
+Theorem C03_no_fault_in_any_history_of_every_operation :
+  forall ovf t h v s top pi0 v' obss,
+    RepF pi0 t v s top -> m_refuse s <> 1 -> orunS (m_cap s) t v h = Some (v', obss) ->
+    exists s' top', mrunS ovf t s top h = Ok (s', top', obss) /\ top_check s' top' = true /\ m_len s' <= m_cap s' /\ m_cap s' = m_cap s.
+Proof.
+  intros ovf t h v s top pi0 v' obss R Hn Ho.
+  destruct (srun_refines ovf t h v s top pi0 v' obss R Hn Ho) as (s' & top' & pi' & Hrun & R' & Hc).
   exists s', top'. split; [exact Hrun|]. split; [exact (repf_top_check _ _ _ _ _ R')|].
   pose proof (repf_cap _ _ _ _ _ R'). destruct R' as [_ _ _ _ Hl _ _]. split; [lia|exact Hc].
 Qed.
